@@ -109,19 +109,19 @@ package prometheus
 //@   params c clientProxyBytes proxyTargetBytes accessKey clientInfo
 //@   requires validPC(c)
 //@   trace[C15,four-series] exactly 4 prometheus.addIfNonZero
-//@   trace[C15,client-to-proxy-per-key] holds evnth("prometheus.addIfNonZero", 0, "arg", 0) == clientProxyBytes && evnth("prometheus.addIfNonZero", 0, "arg", 1) == c.dataBytesPerKey && evnth("prometheus.addIfNonZero", 0, "arg", 2)[0] == "c>p" && evnth("prometheus.addIfNonZero", 0, "arg", 2)[1] == accessKey
-//@   trace[C15,client-to-proxy-per-location] holds evnth("prometheus.addIfNonZero", 1, "arg", 0) == clientProxyBytes && evnth("prometheus.addIfNonZero", 1, "arg", 1) == c.dataBytesPerLocation && evnth("prometheus.addIfNonZero", 1, "arg", 2)[0] == "c>p"
-//@   trace[C15,proxy-to-target-per-key] holds evnth("prometheus.addIfNonZero", 2, "arg", 0) == proxyTargetBytes && evnth("prometheus.addIfNonZero", 2, "arg", 1) == c.dataBytesPerKey && evnth("prometheus.addIfNonZero", 2, "arg", 2)[0] == "p>t" && evnth("prometheus.addIfNonZero", 2, "arg", 2)[1] == accessKey
-//@   trace[C15,proxy-to-target-per-location] holds evnth("prometheus.addIfNonZero", 3, "arg", 0) == proxyTargetBytes && evnth("prometheus.addIfNonZero", 3, "arg", 1) == c.dataBytesPerLocation && evnth("prometheus.addIfNonZero", 3, "arg", 2)[0] == "p>t"
+//@   trace[C15,C16,client-to-proxy-per-key] atleast 1 prometheus.addIfNonZero where $arg0 == clientProxyBytes && $arg1 == c.dataBytesPerKey && $arg2[0] == "c>p" && $arg2[1] == accessKey
+//@   trace[C15,C16,client-to-proxy-per-location] atleast 1 prometheus.addIfNonZero where $arg0 == clientProxyBytes && $arg1 == c.dataBytesPerLocation && $arg2[0] == "c>p"
+//@   trace[C15,C16,proxy-to-target-per-key] atleast 1 prometheus.addIfNonZero where $arg0 == proxyTargetBytes && $arg1 == c.dataBytesPerKey && $arg2[0] == "p>t" && $arg2[1] == accessKey
+//@   trace[C15,C16,proxy-to-target-per-location] atleast 1 prometheus.addIfNonZero where $arg0 == proxyTargetBytes && $arg1 == c.dataBytesPerLocation && $arg2[0] == "p>t"
 //@ func (*proxyCollector).addTargetClient
 //@   props C15 C16 C18
 //@   params c targetProxyBytes proxyClientBytes accessKey clientInfo
 //@   requires validPC(c)
 //@   trace[C15,four-series] exactly 4 prometheus.addIfNonZero
-//@   trace[C15,target-to-proxy-per-key] holds evnth("prometheus.addIfNonZero", 0, "arg", 0) == targetProxyBytes && evnth("prometheus.addIfNonZero", 0, "arg", 1) == c.dataBytesPerKey && evnth("prometheus.addIfNonZero", 0, "arg", 2)[0] == "p<t" && evnth("prometheus.addIfNonZero", 0, "arg", 2)[1] == accessKey
-//@   trace[C15,target-to-proxy-per-location] holds evnth("prometheus.addIfNonZero", 1, "arg", 0) == targetProxyBytes && evnth("prometheus.addIfNonZero", 1, "arg", 1) == c.dataBytesPerLocation && evnth("prometheus.addIfNonZero", 1, "arg", 2)[0] == "p<t"
-//@   trace[C15,proxy-to-client-per-key] holds evnth("prometheus.addIfNonZero", 2, "arg", 0) == proxyClientBytes && evnth("prometheus.addIfNonZero", 2, "arg", 1) == c.dataBytesPerKey && evnth("prometheus.addIfNonZero", 2, "arg", 2)[0] == "c<p" && evnth("prometheus.addIfNonZero", 2, "arg", 2)[1] == accessKey
-//@   trace[C15,proxy-to-client-per-location] holds evnth("prometheus.addIfNonZero", 3, "arg", 0) == proxyClientBytes && evnth("prometheus.addIfNonZero", 3, "arg", 1) == c.dataBytesPerLocation && evnth("prometheus.addIfNonZero", 3, "arg", 2)[0] == "c<p"
+//@   trace[C15,C16,target-to-proxy-per-key] atleast 1 prometheus.addIfNonZero where $arg0 == targetProxyBytes && $arg1 == c.dataBytesPerKey && $arg2[0] == "p<t" && $arg2[1] == accessKey
+//@   trace[C15,C16,target-to-proxy-per-location] atleast 1 prometheus.addIfNonZero where $arg0 == targetProxyBytes && $arg1 == c.dataBytesPerLocation && $arg2[0] == "p<t"
+//@   trace[C15,C16,proxy-to-client-per-key] atleast 1 prometheus.addIfNonZero where $arg0 == proxyClientBytes && $arg1 == c.dataBytesPerKey && $arg2[0] == "c<p" && $arg2[1] == accessKey
+//@   trace[C15,C16,proxy-to-client-per-location] atleast 1 prometheus.addIfNonZero where $arg0 == proxyClientBytes && $arg1 == c.dataBytesPerLocation && $arg2[0] == "c<p"
 
 //@ func (*tcpServiceMetrics).openConnection
 //@   props C15 C18
